@@ -10,6 +10,10 @@ package main
 //   value     a sequence token | e:<int> (a plain int) | self
 //   ops       get SEQ KEY | set SEQ KEY VAL | del SEQ KEY | add A B | iadd A B | iadd3 X Y Z W
 //             mul SEQ i:<n> | rmul SEQ i:<n> | len SEQ | in SEQ ELEM | cmp <op> A B | iter SEQ
+//             hist BASE BUILT DERIVE MUT...   a short history: a = BASE or ctor(BASE) (BUILT = - cT cL cB);
+//               b derived from a (al | sl=a/b/c | cr=SEQ | cl=SEQ | mr=n | ml=n | cT | cL | cB); then growing
+//               operations on the object b (ia=SRC | im=n | ap=x | ex=SRC | ss=a/b/c=SRC | ds=a/b/c | si=i=x | di=i,
+//               SRC = a | b | SEQ); V = A=..|B=..|R=.. rendered after the last operation, R = storage sharing
 // output  V = <result>|<operand 1 afterwards>|<operand 2 afterwards>   R = representation detail
 
 import (
@@ -17,6 +21,7 @@ import (
 	"math/big"
 	"strconv"
 	"strings"
+	"unsafe"
 
 	"github.com/go-python/gpython/py"
 )
@@ -208,8 +213,228 @@ func c13Scribble(res py.Object, operands ...py.Object) {
 	l.Items = append(l.Items, py.Int(78))
 }
 
+// ---- short histories (slice-header model) ----
+
+type c13Win struct {
+	base uintptr
+	len  int
+	cap  int
+	sz   uintptr
+}
+
+// the first word of a Go slice header is the data pointer
+func c13Window(o py.Object) (c13Win, bool) {
+	switch x := o.(type) {
+	case *py.List:
+		return c13Win{*(*uintptr)(unsafe.Pointer(&x.Items)), len(x.Items), cap(x.Items), unsafe.Sizeof(py.Object(nil))}, true
+	case py.Tuple:
+		return c13Win{*(*uintptr)(unsafe.Pointer(&x)), len(x), cap(x), unsafe.Sizeof(py.Object(nil))}, true
+	case py.Bytes:
+		return c13Win{*(*uintptr)(unsafe.Pointer(&x)), len(x), cap(x), 1}, true
+	}
+	return c13Win{}, false
+}
+
+// number of elements in [a, a+n) ∩ [b, b+m) (byte addresses, element size sz)
+func c13Overlap(a uintptr, n int, b uintptr, m int, sz uintptr) int {
+	lo, hi := a, a+uintptr(n)*sz
+	if b > lo {
+		lo = b
+	}
+	if e := b + uintptr(m)*sz; e < hi {
+		hi = e
+	}
+	if hi <= lo {
+		return 0
+	}
+	return int((hi - lo) / sz)
+}
+
+func c13Sharing(objs []py.Object) string {
+	names := []struct {
+		nm   string
+		i, j int
+	}{{"ab", 0, 1}, {"ar1", 0, 2}, {"ar2", 0, 3}, {"br1", 1, 2}, {"br2", 1, 3}, {"r1r2", 2, 3}}
+	var parts []string
+	for _, p := range names {
+		if p.i >= len(objs) || p.j >= len(objs) || objs[p.i] == nil || objs[p.j] == nil {
+			continue
+		}
+		x, y := objs[p.i], objs[p.j]
+		if lx, ok := x.(*py.List); ok {
+			if ly, ok := y.(*py.List); ok && lx == ly {
+				parts = append(parts, p.nm+":=")
+				continue
+			}
+		}
+		wx, ok1 := c13Window(x)
+		wy, ok2 := c13Window(y)
+		if !ok1 || !ok2 || wx.sz != wy.sz || wx.cap == 0 || wy.cap == 0 {
+			continue
+		}
+		// the two capacity windows must belong to one array
+		if c13Overlap(wx.base, wx.cap, wy.base, wy.cap, wx.sz) == 0 {
+			continue
+		}
+		l := c13Overlap(wx.base, wx.len, wy.base, wy.len, wx.sz)
+		sx := c13Overlap(wx.base+uintptr(wx.len)*wx.sz, wx.cap-wx.len, wy.base, wy.len, wx.sz)
+		sy := c13Overlap(wy.base+uintptr(wy.len)*wy.sz, wy.cap-wy.len, wx.base, wx.len, wx.sz)
+		if l == 0 && sx == 0 && sy == 0 {
+			continue
+		}
+		parts = append(parts, fmt.Sprintf("%s:%d/%d/%d", p.nm, l, sx, sy))
+	}
+	return strings.Join(parts, ";")
+}
+
+func c13SliceOf(s string) py.Object {
+	f := strings.Split(s, "/")
+	return py.NewSlice(c13Comp(f[0]), c13Comp(f[1]), c13Comp(f[2]))
+}
+
+func c13Ctor(k string, a py.Object) (py.Object, error) {
+	switch k {
+	case "cT":
+		return py.TupleNew(py.TupleType, py.Tuple{a}, nil)
+	case "cL":
+		return py.ListNew(py.ListType, py.Tuple{a}, nil)
+	case "cB":
+		return py.BytesNew(py.BytesType, py.Tuple{a}, nil)
+	}
+	panic("bad constructor " + k)
+}
+
+func c13Method(o py.Object, name string, arg py.Object) (py.Object, error) {
+	m, err := py.GetAttrString(o, name)
+	if err != nil {
+		return nil, err
+	}
+	return py.Call(m, py.Tuple{arg}, nil)
+}
+
+func c13Hist(f []string) (string, string) {
+	a, err := c13Seq(f[1])
+	if err == nil && f[2] != "-" {
+		a, err = c13Ctor(f[2], a)
+	}
+	if err != nil {
+		return errClass(err) + "@a", ""
+	}
+	show := func(o py.Object) string { v, _ := c13Show(o); return v }
+	// derive b
+	var b py.Object
+	d := f[3]
+	switch {
+	case d == "al":
+		b = a
+	case strings.HasPrefix(d, "sl="):
+		b, err = py.GetItem(a, c13SliceOf(d[3:]))
+	case strings.HasPrefix(d, "cr="), strings.HasPrefix(d, "cl="):
+		var c py.Object
+		c, err = c13Seq(d[3:])
+		if err == nil {
+			if d[1] == 'r' {
+				b, err = py.Add(a, c)
+			} else {
+				b, err = py.Add(c, a)
+			}
+		}
+	case strings.HasPrefix(d, "mr="):
+		b, err = py.Mul(a, c13Int(d[3:]))
+	case strings.HasPrefix(d, "ml="):
+		b, err = py.Mul(c13Int(d[3:]), a)
+	default:
+		b, err = c13Ctor(d, a)
+	}
+	if err != nil {
+		return errClass(err) + "@b|A=" + show(a), ""
+	}
+	src := func(s string) (py.Object, error) {
+		switch s {
+		case "a":
+			return a, nil
+		case "b":
+			return b, nil
+		}
+		return c13Seq(s)
+	}
+	objs := []py.Object{a, b}
+	var results []string
+	for _, m := range f[4:] {
+		if m == "" {
+			continue
+		}
+		var r py.Object
+		var merr error
+		op, arg := m[:2], m[3:]
+		switch op {
+		case "ia":
+			var c py.Object
+			if c, merr = src(arg); merr == nil {
+				r, merr = py.IAdd(b, c)
+			}
+		case "im":
+			r, merr = py.IMul(b, c13Int(arg))
+		case "ap":
+			if _, merr = c13Method(b, "append", c13Int(arg)); merr == nil {
+				r = b
+			}
+		case "ex":
+			var c py.Object
+			if c, merr = src(arg); merr == nil {
+				if _, merr = c13Method(b, "extend", c); merr == nil {
+					r = b
+				}
+			}
+		case "ss":
+			i := strings.Index(arg, "=")
+			var c py.Object
+			if c, merr = src(arg[i+1:]); merr == nil {
+				if _, merr = py.SetItem(b, c13SliceOf(arg[:i]), c); merr == nil {
+					r = b
+				}
+			}
+		case "ds":
+			if _, merr = py.DelItem(b, c13SliceOf(arg)); merr == nil {
+				r = b
+			}
+		case "si":
+			i := strings.Index(arg, "=")
+			if _, merr = py.SetItem(b, c13Comp(arg[:i]), c13Int(arg[i+1:])); merr == nil {
+				r = b
+			}
+		case "di":
+			if _, merr = py.DelItem(b, c13Comp(arg)); merr == nil {
+				r = b
+			}
+		default:
+			panic("bad mutation " + m)
+		}
+		if merr != nil {
+			results = append(results, errClass(merr))
+			objs = append(objs, nil)
+		} else {
+			results = append(results, "")
+			objs = append(objs, r)
+		}
+	}
+	// everything is rendered after the last operation
+	v := "A=" + show(a) + "|B=" + show(b)
+	for i, e := range results {
+		if e != "" {
+			v += "|R=" + e
+		} else {
+			v += "|R=" + show(objs[2+i])
+		}
+	}
+	return v, c13Sharing(objs)
+}
+
 func c13Run(line string) (string, string) {
 	f := strings.Split(line, " ")
+	if f[0] == "hist" {
+		return c13Hist(f)
+	}
 	var res py.Object
 	var err error
 	var ops []py.Object
